@@ -179,6 +179,19 @@ Proof.
 Qed.
 Print Assumptions c06_shownet_proposedfix_history.
 
+(* the proposed fix changes nothing for traffic inside the guard: same outputs, same next state *)
+Theorem c06_shownet_fix_compatible : forall d t st,
+  bytes_ok d = true -> len d <= 1316 -> sn_syn d st = true ->
+  run (d ++ t) (shownet_handle_fixed (len d) st) = run (d ++ t) (shownet_handle (len d) st).
+Proof.
+  intros d t st Hb Hn Hs. pose proof (sn_syn_within d st Hb Hn Hs) as Hw.
+  pose proof (sn_fix_compat_alone d st Hb Hn Hs) as Hc.
+  unfold sn_within, completes in Hw.
+  destruct (run d (shownet_handle (len d) st)) as [r|z] eqn:E; [|discriminate].
+  rewrite (run_app_mono _ _ t _ E), (run_app_mono _ _ t _ Hc). reflexivity.
+Qed.
+Print Assumptions c06_shownet_fix_compatible.
+
 (* the guard is satisfiable by an accepted datagram; the two witnesses are outside it *)
 Definition sn_good : list N :=
   [128; 143; 10; 0; 0; 2] ++ [1; 0] ++ repeat 0 6 ++ [4; 0] ++ repeat 0 6 ++ [11; 0; 13; 0] ++ repeat 0 6
